@@ -112,7 +112,9 @@ def apply_ops(topo, x, ops, strict=False):
                 if any(a[0] in ('boundary', 'interfaces') for a in applied) or topo.ndims < 2: continue
                 topo = topo.boundary[op[1]]
             elif name == 'slice':
-                continue
+                r = slice_structured(topo, op)
+                if r is None: continue
+                topo = r[0]
             else:
                 continue
         except (KeyError, NotImplementedError):
@@ -122,6 +124,21 @@ def apply_ops(topo, x, ops, strict=False):
             continue   # operation not supported on this kind of topology (C10 exercises these in strict mode)
         applied.append(op)
     return topo, applied
+
+
+def slice_structured(topo, op):
+    """window topo[..., a:b, ...] of a structured topology along one direction; returns (window, flat indices of the selected elements, direction) or None"""
+    shape = getattr(topo, 'shape', None)
+    if shape is None or not hasattr(topo, 'axes') or len(shape) != topo.ndims or len(topo) != int(numpy.prod(shape)):
+        return None
+    d = op[1] % topo.ndims
+    a = op[2] % shape[d]
+    b = min(a + op[3], shape[d])
+    if b - a == shape[d] and d not in getattr(topo, 'periodic', ()):
+        return None        # nothing selected away
+    window = topo[(slice(None),) * d + (slice(a, b),)]
+    idx = numpy.arange(len(topo)).reshape(shape)[(slice(None),) * d + (slice(a, b),)].ravel()
+    return window, idx, d
 
 
 def geometry(x, g, ndims, with_jac=False):
